@@ -329,7 +329,7 @@ func (g *storageGen) jklPriceRaw() BigNum {
 // derived by the chain from height, end time and coins).  When a deposit leaves the record
 // byte-identical (e.g. an empty coin list into an existing id) the gauge started at this block
 // time with the expected end is taken.
-func gaugeDelta(pre, post stState, now int64, wantEnd int64) (string, string) {
+func gaugeDelta(pre, post stState, now int64, wantEnd *big.Int) (string, string) {
 	m := map[string]string{}
 	for _, p := range pre.Gauges {
 		b, _ := json.Marshal(p[1])
@@ -343,7 +343,7 @@ func gaugeDelta(pre, post stState, now int64, wantEnd int64) (string, string) {
 	}
 	for _, p := range post.Gauges {
 		g := p[1].(map[string]interface{})
-		if g["startT"].(BigNum).Int64() == now && g["endT"].(BigNum).IsInt64() && g["endT"].(BigNum).Int64() == wantEnd {
+		if g["startT"].(BigNum).Int64() == now && g["endT"].(BigNum).Int.Cmp(wantEnd) == 0 {
 			return p[0].(string), g["account"].(string)
 		}
 	}
@@ -358,7 +358,11 @@ func (g *storageGen) next() (sdk.Msg, map[string]interface{}, func(pre, post stS
 	k := r.Intn(tot)
 	params := c.A.StorageKeeper.GetParams(c.Ctx())
 	files := g.allFiles()
-	fillGauge := func(key string, wantEnd int64) func(pre, post stState, op map[string]interface{}) {
+	bigEnd := func(days int64) *big.Int { // now + days·24h without wrap-around, as the chain's time arithmetic gives it
+		e := new(big.Int).Mul(big.NewInt(days), big.NewInt(86400_000_000_000))
+		return e.Add(e, big.NewInt(c.T.UnixNano()))
+	}
+	fillGauge := func(key string, wantEnd *big.Int) func(pre, post stState, op map[string]interface{}) {
 		return func(pre, post stState, op map[string]interface{}) {
 			id, acc := gaugeDelta(pre, post, c.T.UnixNano(), wantEnd)
 			o := op[key].(map[string]interface{})
@@ -400,7 +404,7 @@ func (g *storageGen) next() (sdk.Msg, map[string]interface{}, func(pre, post stS
 		msg := &sttypes.MsgBuyStorage{Creator: creator, ForAddress: forAddr, DurationDays: days, Bytes: byts, PaymentDenom: denom, Referral: ref}
 		g.lastBuy = msg
 		op := map[string]interface{}{"buyStorage": map[string]interface{}{"creator": creator, "forAddress": forAddr, "durationDays": days, "bytes": byts, "denom": denom, "referral": refJ, "jklPrice": g.jklPriceRaw(), "gaugeId": "", "gaugeAcc": ""}}
-		return msg, op, fillGauge("buyStorage", c.T.UnixNano()+days*86400_000_000_000)
+		return msg, op, fillGauge("buyStorage", bigEnd(days))
 	case k < m.buy+m.post:
 		creator := g.user()
 		// real content, a few chunks
@@ -445,7 +449,7 @@ func (g *storageGen) next() (sdk.Msg, map[string]interface{}, func(pre, post stS
 		op := map[string]interface{}{"postFile": map[string]interface{}{"creator": creator, "merkle": hex.EncodeToString(merkle), "fileSize": size, "maxProofs": maxProofs, "expires": expires, "proofType": 0,
 			"note": note, "noteValid": jsonValid(note), "jklPrice": g.jklPriceRaw(), "gaugeId": "", "gaugeAcc": ""}}
 		payDays := (expires - c.H) * 6 / 60 / 60 / 24
-		return msg, op, fillGauge("postFile", c.T.UnixNano()+payDays*86400_000_000_000)
+		return msg, op, fillGauge("postFile", bigEnd(payDays))
 	case k < m.buy+m.post+m.del:
 		creator := g.user()
 		merkle, start := []byte{1, 2}, c.H
@@ -671,6 +675,36 @@ func runStorage(profile string, seed int64, histories, steps int, out *Emitter) 
 				} else {
 					out.Count(profile+".block", true)
 				}
+				continue
+			}
+			if r.Intn(map[bool]int{true: 9, false: 45}[profile == "collateral"]) == 0 {
+				// a governance parameter change between two messages (the params subspace is written
+				// the way a passed param-change proposal writes it: SetParamSet with the validators)
+				pre, _ := c.storageAbs(g.users)
+				np := c.A.StorageKeeper.GetParams(c.Ctx())
+				switch r.Intn(4) {
+				case 0, 1:
+					np.CollateralPrice = []int64{0, 1, 2, 3, 1000, 5000, 10_000_000_000, np.CollateralPrice * 2, np.CollateralPrice / 2}[r.Intn(9)]
+				case 2:
+					np.PricePerTbPerMonth = []int64{0, 1, 8, 15, 100}[r.Intn(5)]
+				case 3:
+					pr := polRatios[r.Intn(len(polRatios))]
+					np.PolRatio, np.ReferralCommission = pr[0], pr[1]
+				}
+				ok := true
+				func() {
+					defer func() {
+						if recover() != nil {
+							ok = false
+						}
+					}()
+					cctx, write := c.Ctx().CacheContext()
+					c.A.StorageKeeper.SetParams(cctx, np)
+					write()
+				}()
+				post, bad := c.storageAbs(g.users)
+				out.Emit(map[string]interface{}{"mod": "storage", "hist": hi, "i": i, "h": c.H, "now": c.T.UnixNano(), "pre": pre, "op": map[string]interface{}{"setParams": post.Params}, "ok": ok, "post": post, "badKeys": bad, "users": g.users})
+				out.Count(profile+".setParams", ok)
 				continue
 			}
 			msg, op, fill := g.next()
